@@ -1,6 +1,9 @@
-(* C03: explicit Gallina models of the `range`-over-map sites whose loop body is Observable
-   (Gen/Sites_gen.v), named after the Go functions. Every Go map iteration is an explicit
-   iteration-sequence argument. Definitions only; theorems in Proofs/PermModelsProofs.v. *)
+(* C03: explicit Gallina models of the places where a map's iteration order could reach an output,
+   named after the Go functions. Every Go map iteration (a `range`, or tools.Keys) is an explicit
+   iteration-sequence argument `seq`. Functions named after Go functions mirror the CURRENT code
+   (which sorts what it collected before using it); the `*_unsorted` variants are the same loops
+   ranging over the map directly - NOT cog's code any more, kept to document why the sort is
+   needed. Definitions only; theorems in Proofs/PermModelsProofs.v. *)
 From Cog Require Export Model.Perm.
 Local Open Scope list_scope.
 Local Open Scope string_scope.
@@ -20,27 +23,40 @@ Definition fields_of (c : candidates_t) (typeName : string) : list (string * str
   match lookup c typeName with Some fs => fs | None => [] end.
 Definition exists_in_all_branches (c : candidates_t) (all_types : list string) (field : string) : bool :=
   forallb (fun t => has_key (fields_of c t) field) all_types.
-Definition inferDiscriminatorField (c : candidates_t) (seq_types seq_fields : list string) : string :=
+(* `for candidateFieldName := range candidates[someType]` - the loop before fix 5b9ef0c *)
+Definition inferDiscriminatorField_unsorted (c : candidates_t) (seq_types seq_fields : list string) : string :=
   match first_match (exists_in_all_branches c seq_types) seq_fields with
   | Some f => f
   | None => ""
   end.
+(* candidateFieldNames := tools.Keys(candidates[someType]); sort.Strings(candidateFieldNames) *)
+Definition inferDiscriminatorField (c : candidates_t) (seq_types seq_fields : list string) : string :=
+  inferDiscriminatorField_unsorted c seq_types (isort sleb seq_fields).
 
 (* ---------- codegen/pipeline.go: Pipeline.interpolate ---------- *)
-Definition interpolate (seq : list (string * string)) (input : string) : string :=
+Definition interpolate_unsorted (seq : list (string * string)) (input : string) : string :=
   fold_left (fun acc kv => replace_all ("%" ++ fst kv ++ "%") (snd kv) acc) seq input.
+(* keys := tools.Keys(pipeline.Parameters); sort.Strings(keys); one pass in that order *)
+Definition by_key {V} (seq : list (string * V)) : list (string * V) := isort (leb_by (@fst string V)) seq.
+Definition interpolate (seq : list (string * string)) (input : string) : string :=
+  interpolate_unsorted (by_key seq) input.
 
 (* ---------- jennies/typescript/tools.go: formatValue on a map[string]any ---------- *)
-Definition formatValue_map (seq : list (string * string)) : string :=
+Definition formatValue_map_unsorted (seq : list (string * string)) : string :=
   "{" ++ String (ascii_of_nat 10) "" ++
   fold_left (fun acc kv => acc ++ String (ascii_of_nat 9) "" ++ fst kv ++ ": " ++ snd kv ++ "," ++ String (ascii_of_nat 10) "") seq ""
   ++ "}".
+(* orderedmap.FromMap(mapVal).Iterate(...): FromMap collects the keys and sorts them *)
+Definition formatValue_map (seq : list (string * string)) : string := formatValue_map_unsorted (by_key seq).
 
 (* ---------- veneers/builder/rules.go: ComposeBuilders ----------
-   newBuilders = the builders not selected, then for each panel type (map order) the builders
-   composed for it. `compose` abstracts composeBuilderForType. *)
-Definition ComposeBuilders {B} (kept : list B) (compose : string * list B -> list B) (seq : list (string * list B)) : list B :=
+   newBuilders = the builders not selected, then for each panel type the builders composed for it.
+   `compose` abstracts composeBuilderForType. *)
+Definition ComposeBuilders_unsorted {B} (kept : list B) (compose : string * list B -> list B) (seq : list (string * list B)) : list B :=
   (kept ++ append_each compose seq)%list.
+(* panelTypes := tools.Keys(composableBuilders); sort.Strings(panelTypes) *)
+Definition ComposeBuilders {B} (kept : list B) (compose : string * list B -> list B) (seq : list (string * list B)) : list B :=
+  ComposeBuilders_unsorted kept compose (by_key seq).
 
 (* ---------- languages/converter.go: FromBuilder ----------
    converter.Mappings = per-option mappings, then one mapping per entry of listOfDisjunctionOptions
